@@ -66,6 +66,12 @@ func registerIntrinsics(e *Engine) {
 		}
 		return K(64, uint64(v))
 	})
+	reg(apiPkg+".ParamOr", func(fr *frame, a []value) value {
+		if v, ok := fr.w.js.job.Params[a[0].(string)]; ok {
+			return K(64, uint64(v))
+		}
+		return a[1]
+	})
 	reg(apiPkg+".Choose", func(fr *frame, a []value) value {
 		n := int(a[0].(*Term).S())
 		k := fr.w.choose(n)
@@ -152,6 +158,7 @@ func registerIntrinsics(e *Engine) {
 		}
 		return fr.w.encoded[len(fr.w.encoded)-1]
 	})
+	registerVFS(e)
 	registerSummaries(e)
 	registerBytealg(e)
 	registerStrings(e)
@@ -553,9 +560,6 @@ func registerMisc(e *Engine) {
 	reg("sort.SliceStable", func(fr *frame, a []value) value { return fr.sortSlice(a, "stable_func", true) })
 
 	// time: environment
-	reg("time.now", func(fr *frame, a []value) value {
-		panic(engineError{"time.Now reached: harness must control the clock"})
-	})
 	reg("time.runtimeNano", func(fr *frame, a []value) value { return K(64, 1) })
 	reg("time.Sleep", func(fr *frame, a []value) value { return nil })
 	reg("runtime.GOROOT", func(fr *frame, a []value) value { return "/goroot" })
